@@ -61,6 +61,12 @@ fn deep_doc() -> Vec<u8> {
     fb.add(12, 0, &Val::dict(vec![("Type", Val::name("Pages")), ("Parent", Val::r(13)), ("Kids", Val::Array(vec![])), ("Count", Val::Int(0))]));
     fb.add(13, 0, &Val::dict(vec![("Type", Val::name("Pages")), ("Parent", Val::r(14)), ("Kids", Val::Array(vec![])), ("Count", Val::Int(0))]));
     fb.add(14, 0, &Val::dict(vec![("Type", Val::name("Pages")), ("Parent", Val::r(12)), ("Kids", Val::Array(vec![])), ("Count", Val::Int(0))]));
+    // two stream objects that both call themselves `20 0 obj` (as an object and its replacement do in an updated file);
+    // the table sends number 20 to the second and number 22 to the first
+    fb.add(20, 0, &Val::stream(vec![], b"first object named 20".to_vec()));
+    let first = fb.section.get(&20).cloned().unwrap();
+    fb.add(20, 0, &Val::stream(vec![("Filter", Val::name("ASCIIHexDecode"))], b"7365636f6e64>".to_vec()));
+    fb.section.insert(22, first);
     fb.finish_table(&[("Root", Val::r(1))], Split::Runs);
     fb.bytes()
 }
@@ -80,6 +86,10 @@ pub fn alphabet_deep() -> Vec<Call> {
     }
     for n in [10u64, 11, 12, 13, 14] {
         a.push((Kind::GetPagesNode, n));
+    }
+    for n in [20u64, 22] {
+        a.push((Kind::StreamData, n));
+        a.push((Kind::GetStream, n));
     }
     a.push((Kind::GetPage, 0));
     a
@@ -417,12 +427,19 @@ pub fn run(tier: Tier, _seed: u64, tally: &mut Tally) -> CheckMeta {
         total_alpha = total_alpha.max(alpha.len());
         // reference: each call alone on a fresh uncached document
         let reference: std::collections::HashMap<Call, String> = alpha.iter().map(|c| (*c, run_sequence(&bytes, 4, &[*c]).pop().unwrap())).collect();
+        let reference_tolerant: std::collections::HashMap<Call, String> = alpha.iter().map(|c| (*c, run_sequence(&bytes, N_CACHE_CONFIGS + 4, &[*c]).pop().unwrap())).collect();
         let n = alpha.len();
         // quick: all pairs under all configs, all triples under "both caches"; thorough: all triples under every config
         let parts: Vec<Tally> = (0..n)
             .into_par_iter()
             .map(|i| {
                 let mut t = Tally::new();
+                // tolerant options: all pairs under every cache configuration
+                for cfg in N_CACHE_CONFIGS..2 * N_CACHE_CONFIGS {
+                    for j in 0..n {
+                        check_seq(&bytes, &reference_tolerant, variant, cfg, &[alpha[i], alpha[j]], &mut t);
+                    }
+                }
                 for cfg in 0..N_CACHE_CONFIGS {
                     check_seq(&bytes, &reference, variant, cfg, &[alpha[i]], &mut t);
                     for j in 0..n {
@@ -563,7 +580,7 @@ pub fn run(tier: Tier, _seed: u64, tally: &mut Tally) -> CheckMeta {
     CheckMeta {
         prop: "C12",
         level: "model_checking",
-        rule: format!("call alphabet of {} (kind, object) pairs on two generated documents (classic; xref stream + object stream) containing pages, fonts, a Flate image with predictor, a hex+run-length mask, an [ASCII85 Flate] image, a form and content streams: kinds resolve, get::<PagesNode|Font|XObject|Stream|ObjectStream>, Stream::data, raw_image_data, image_data, get_page (incl. type-mismatching and out-of-range calls). Exhaustive: all sequences of length <= 2 under 5 cache configurations {{SyncCache both, object only, stream only, own map-backed caches, none}}, all sequences of length 3 under {}, every ordering (all permutations) of the distinct calls per object, and all ordered pairs over a wide alphabet of {} calls (resolve and get::<PagesNode|Font|XObject|Stream|Primitive|Dictionary|i32> on every object of the document incl. an integer and a reference-only object, page look-ups) under all 5 configurations; a third document with a chain of 70 page-tree nodes nested through /Parent and {} calls (typed load and resolve of every 8th node, of nodes 31-33 and of the last): all sequences of length <= 2 under every configuration and of length 3 under the two full cache configurations; plus the complete walk of {} repository files cached vs uncached (strict and tolerant). Each answer is compared with the same call made alone on a fresh uncached document (canonical digest / root-cause error variant).", total_alpha, if tier.thorough() { "every configuration" } else { "both-caches and own-map-caches" }, total_wide, n_deep, n_corpus),
+        rule: format!("call alphabet of {} (kind, object) pairs on two generated documents (classic; xref stream + object stream) containing pages, fonts, a Flate image with predictor, a hex+run-length mask, an [ASCII85 Flate] image, a form and content streams: kinds resolve, get::<PagesNode|Font|XObject|Stream|ObjectStream>, Stream::data, raw_image_data, image_data, get_page (incl. type-mismatching and out-of-range calls). Exhaustive: all sequences of length <= 2 under 5 cache configurations {{SyncCache both, object only, stream only, own map-backed caches, none}} with strict and with tolerant options, all sequences of length 3 under {}, every ordering (all permutations) of the distinct calls per object, and all ordered pairs over a wide alphabet of {} calls (resolve and get::<PagesNode|Font|XObject|Stream|Primitive|Dictionary|i32> on every object of the document incl. an integer and a reference-only object, page look-ups) under all 5 configurations; a third document with a chain of 70 page-tree nodes nested through /Parent and {} calls (typed load and resolve of every 8th node, of nodes 31-33 and of the last, typed loads of page-tree nodes whose /Parent references form cycles of two and of three), strict and tolerant options: all sequences of length <= 2 under every configuration and of length 3 under the two full cache configurations; plus the complete walk of {} repository files cached vs uncached (strict and tolerant). Each answer is compared with the same call made alone on a fresh uncached document (canonical digest / root-cause error variant).", total_alpha, if tier.thorough() { "every configuration" } else { "both-caches and own-map-caches" }, total_wide, n_deep, n_corpus),
         assumptions: vec!["digests are independent of HashMap iteration order and file offsets".into()],
         exhaustive: true,
         bounds: json!({"sequence_len": maxlen}),
